@@ -195,7 +195,7 @@ TYPES = ["int", "long", "double", "void", "char", "bool", "unsigned int", "long 
 BADTYPES = ["ns", "std", "ns::deep", "MyInt::x", "Color::RED", "Top::A", "Top::Inner", "size_t::y", "Zed", "ns::Zed", "Pt::x",
             "std::vector<int,int>", "std::vector<>", "std::vector<Zed>", "int unsigned long", "T", "T::x", "deep::Leaf", "unsigned MyInt",
             "std::vector<ns>", "ns::Cls::Cls", "Cls::Cls", "std::string::npos", "int int", "void void"]
-NAMES = ["a", "b", "count", "name", "x1", "Cls", "Top", "T", "len", "value"]
+NAMES = ["a", "b", "count", "name", "x1", "Cls", "Top", "T", "len", "value", "constraint", "volatile_count", "intptr"]     # (identifiers that begin with a keyword)
 ATTRS = ["+intent(in)", "+intent(out)", "+intent(inout)", "+rank(1)", "+dimension(n)", "+dimension(n,m+1)", "+value", "+len=30", "+charlen(20)",
          "+implied(size(a))", "+hidden", "+deref(allocatable)", "+owner(caller)", "+name(xx)", "+len_trim", "+pure", "+free_pattern(p)",
          "+default=1", "+default=1.5e3", "+default=\"s\"", "+cdesc", "+external", "+assumedtype", "+context(c)"]
